@@ -109,7 +109,7 @@ func fromVariant(x *variants.Variant, depth int) (v Val) {
 			v = Val{T: "<bad:" + TypeName(x.Type()) + ">", S: fmt.Sprintf("%T", x.AsObject())}
 		}
 	}()
-	if depth > 6 {
+	if depth > 300 {
 		return Val{T: "<deep>"}
 	}
 	switch x.Type() {
